@@ -25,10 +25,12 @@ CONSTANTS MaxBlocks,      \* 1..3
           WithProxyDel,   \* BOOLEAN: generate retarget_to_proxy deletions
           CfiLayouts,     \* subset of {"none","proc_all","proc_each","proc_rs"}
           Isa,            \* "x64" | "ia32" | "arm64": instruction sizes of the rendered module
+          WithScopes,     \* BOOLEAN: generate register_insert(AllBlocksScope(ENTRY), ..) requests
+          InsFns,         \* subset of {"none", "ret", "loop"}: register_insert_function("newfn", ..)
           Emit            \* BOOLEAN: print cases
 
-VARIABLES shape, reqs
-vars == <<shape, reqs>>
+VARIABLES shape, reqs, insfn
+vars == <<shape, reqs, insfn>>
 
 (***************************************************************************)
 (* Block templates: unit sequences.  "X" is replaced by the target symbol. *)
@@ -269,13 +271,18 @@ Candidates(sh) ==
               k \in (IF code THEN PatchKinds \cap {"plain2", "ret", "loop", "cfi"} ELSE PatchKinds \cap {"bytes"})}
         : i \in DOMAIN bs}
 
+\* register_insert(AllBlocksScope(ENTRY), patch): one registration, one insertion at
+\* offset 0 of every code block
+ScopeCandidates == IF WithScopes THEN {[op |-> "insall", blk |-> 0, off |-> 0, len |-> 0, proxy |-> FALSE, pk |-> "plain2"]} ELSE {}
+
 \* canonical (address, then registration) order key, to generate each batch once
 Key(r) == <<r.blk, r.off, IF r.op = "ins" THEN 0 ELSE 1>>
 Less(a, b) == \/ a.blk < b.blk
               \/ a.blk = b.blk /\ a.off < b.off
               \/ a.blk = b.blk /\ a.off = b.off /\ a.op = "ins" /\ b.op # "ins"
 Compatible(rs, r) ==
-  IF rs = <<>> THEN TRUE
+  IF r.op = "insall" THEN rs = <<>>            \* only as the first element (the runner permutes registration)
+  ELSE IF rs = <<>> \/ rs[Len(rs)].op = "insall" THEN TRUE
   ELSE LET l == rs[Len(rs)]
        IN  /\ IF Less(l, r) THEN TRUE
               ELSE (l.blk = r.blk /\ l.off = r.off /\ l.op = "ins" /\ r.op = "ins")
@@ -288,9 +295,13 @@ Compatible(rs, r) ==
                  /\ \E q \in DOMAIN rs : rs[q].blk = r.blk /\ rs[q].op = "ins")
 
 TraceReqs(st, rs) ==
-  [q \in 1..Len(rs) |->
-     [id |-> q - 1, op |-> rs[q].op, u |-> rs[q].blk, off |-> rs[q].off, len |-> rs[q].len,
-      proxy |-> rs[q].proxy, pk |-> rs[q].pk, patch |-> AbsPatch(rs[q].pk, q)]]
+  LET one(q) == [id |-> q - 1, op |-> rs[q].op, u |-> rs[q].blk, off |-> rs[q].off, len |-> rs[q].len,
+                 proxy |-> rs[q].proxy, pk |-> rs[q].pk, patch |-> AbsPatch(rs[q].pk, q)]
+      codeBlocks == SelectSeq([i \in 1..Len(st.secs[1].blocks) |-> i], LAMBDA i : st.secs[1].blocks[i].k = "code")
+      expand(q) == IF rs[q].op = "insall"
+                   THEN [j \in 1..Len(codeBlocks) |-> [one(q) EXCEPT !.op = "ins", !.u = codeBlocks[j]]]
+                   ELSE <<one(q)>>
+  IN  FlattenSeq([q \in 1..Len(rs) |-> expand(q)])
 
 AbsTrace == [pre |-> AbsState(shape), reqs |-> TraceReqs(AbsState(shape), reqs), stage |-> "done", exc |-> ""]
 
@@ -298,7 +309,7 @@ AbsTrace == [pre |-> AbsState(shape), reqs |-> TraceReqs(AbsState(shape), reqs),
 (* Behaviour                                                               *)
 (***************************************************************************)
 CaseJson ==
-  [shape |-> shape,
+  [shape |-> shape, insfn |-> insfn,
    reqs |-> [q \in 1..Len(reqs) |->
                [op |-> reqs[q].op, sec |-> 0, blk |-> reqs[q].blk - 1, off |-> reqs[q].off,
                 len |-> reqs[q].len, proxy |-> reqs[q].proxy,
@@ -307,11 +318,12 @@ CaseJson ==
 
 Init == /\ shape \in {MkShape(p) : p \in ShapeParams}
         /\ reqs = <<>>
+        /\ insfn \in InsFns
 Next == /\ Len(reqs) < MaxReqs
-        /\ \E r \in Candidates(shape) :
+        /\ \E r \in Candidates(shape) \cup ScopeCandidates :
               /\ Compatible(reqs, r)
               /\ reqs' = Append(reqs, r)
-        /\ UNCHANGED shape
+        /\ UNCHANGED <<shape, insfn>>
 Spec == Init /\ [][Next]_vars
 
 EmitCase == Emit => PrintT("CASE " \o ToJson(CaseJson))
@@ -346,7 +358,8 @@ Theorems ==
             = SelectSeq(u0, LAMBDA it : ~Covered(rs, it.u, it.o))
       \* every patch appears exactly once, contiguously and in registration order at equal anchors
       /\ \A q \in DOMAIN rs : rs[q].op \in {"ins", "rep"} =>
-            Len(SelectSeq(ue, LAMBDA it : it.src = "patch" /\ it.rid = rs[q].id)) = Len(rs[q].patch.units)
+            Len(SelectSeq(ue, LAMBDA it : it.src = "patch" /\ it.rid = rs[q].id))
+              = Len(rs[q].patch.units) * Cardinality({z \in DOMAIN rs : rs[z].id = rs[q].id})
       /\ Len(BytesOf(le)) = Len(BytesOf(l0)) + Sum([q \in 1..Len(rs) |-> plen(q)])
                               - Sum([q \in 1..Len(rs) |-> rs[q].len])
       \* labels never disappear unless their block is deleted with retarget_to_proxy,
